@@ -366,6 +366,9 @@ func (m *wset) dest(level int) []int {
 // lateRegistered: the walk over a history has passed its "register" step (custLate counts as error class from there on).
 var lateRegistered bool
 
+// dupOK: got deliveries for a writer that the model lists c times (see the duplicate-registration note in verify).
+func dupOK(got, c int) bool { return got == c || (c > 1 && got == 1) }
+
 func count(l []int, w int) (n int) {
 	for _, x := range l {
 		if x == w {
@@ -436,7 +439,12 @@ func verify(t vlib.TB, script []Step, obs []Obs, stdCount func(n int, tok string
 				}
 			}
 			for w := 0; w < nPool; w++ {
-				if got[w] != count(want, w) {
+				if c := count(want, w); c > 1 && got[w] == 1 {
+					// one writer registered several times in the selected list: the statement speaks of the writer SET
+					// ("writers outside the selected set receive nothing"); whether the duplicate registration is kept
+					// (one Write per entry) or folded (one Write) it leaves open - at least one, at most one per entry
+					labels["duplicate-registration-folded"] = true
+				} else if got[w] != c {
 					sig := "C03/route"
 					vlib.Discrep(t, sig, "C03 after [%s]: writer w%d received %d records, model says %d (model dest=%v; normal=%v error=%v leveled=%v; events=%+v)",
 						hist(n), w, got[w], count(want, w), want, m.normal, m.errw, m.leveled, o.Events)
@@ -444,7 +452,7 @@ func verify(t vlib.TB, script []Step, obs []Obs, stdCount func(n int, tok string
 			}
 			so := stdCount(n, o.Token, given[s.Logger])
 			if so.known && !s.Blank { // a blank line carries no token that could be counted in the standard streams
-				if so.out != count(want, stdoutID) || so.err != count(want, stderrID) {
+				if !dupOK(so.out, count(want, stdoutID)) || !dupOK(so.err, count(want, stderrID)) {
 					vlib.Discrep(t, "C03/route-std", "C03 after [%s]: stdout got %d and stderr %d records, model says %d and %d (dest=%v)",
 						hist(n), so.out, so.err, count(want, stdoutID), count(want, stderrID), want)
 				}
